@@ -145,7 +145,8 @@ def _install():
             else:
                 if method == "lsq":
                     gap = obj - objref
-                    if gap > 1e-6 * max(objref, 1e-10 * scale):
+                    # lmfit stops at relative parameter / cost changes of about 1e-7: absolute floor 1e-10 * |rhs|^2
+                    if gap > 1e-6 * objref + 1e-10 * scale:
                         mon.fail("not-optimal", "reported tensions (+ best multiplier) minimise the squared residual over "
                                  "non-negative candidates", gap=gap, obj=obj, objref=objref, path=rec["path"], method=method)
                 else:
@@ -160,7 +161,7 @@ def _install():
                                  "min ||Mz-b||, z>=0", kkt=rep, gap=gap, objref=objref, path=rec["path"], method=method,
                                  raw_multiplier=float(rec["xres"][-1]))
                 g = Maug.T @ (Maug @ zref - raug)
-                if fb.unique_optimum(Maug, zref, g):
+                if fb.unique_optimum(Maug, zref, g) and not (method == "lsq_linear" and not consistent):
                     mon.count("unique:compared")
                     s = np.linalg.svd(Maug[:, zref > 1e-7], compute_uv=False)
                     cond = s.max() / s.min()
@@ -189,6 +190,8 @@ def _install():
         if consistent and (not (method == "lsq_linear") or True) and x.min() >= -1e-12:
             mon.count("mean-one:checked")
             mtol = {None: 1e-9, "lsq": 1e-5, "lsq_linear": 1e-5}.get(method, 1e-9)
+            if method == "lsq_linear" and (m + 1 < n + 1 or np.linalg.matrix_rank(Maug) < n + 1):
+                mtol = 1e-3     # rank-deficient (e.g. under-determined) systems: the iterative bounded solver stops early
             if abs(x.mean() - 1) > mtol * max(1.0, 1.0):
                 # the mean is pinned by the sum row only through least squares: exact for consistent systems
                 mon.fail("mean-not-one", "for consistent systems the mean reported tension is one", mean=float(x.mean()),
